@@ -582,7 +582,7 @@ class Feature(object):
         return self.since <= v <= self.until
 
 
-def judge_b(f, vv, resps, s, cells=None):
+def judge_b(f, vv, resps, s, cells=None, main=0):
     """resps: list of (status, headers, json, vv id).  -> (present, [(sig, msg)])"""
     v = vv['applied']
     out = []
@@ -599,7 +599,9 @@ def judge_b(f, vv, resps, s, cells=None):
         if f.expected(v):
             out.append(('predicate-error:%s' % f.id, 'predicate failed on response: %r' % e))
     exp = f.expected(v)
-    last = resps[0][0]          # the probing request; later ones only read the effect back
+    # the probing request (the first one sent at the version under test); requests before it
+    # prepare, later ones only read the effect back
+    last = resps[main][0]
     if present != exp:
         kind = 'missing' if exp else ('early' if v < f.since else 'late')
         out.append(('feature-%s:%s' % (kind, f.id),
@@ -1167,6 +1169,15 @@ Feature('1.37 PUT provider re-parents', (1, 37), HIST + '1.37',
                       ('GET', RP + '/' + P(4), None, None, '1.14')],
         lambda s, v, r: r[0][0] == 200 and r[1][2]['parent_provider_uuid'] == P(3) and
         r[1][2]['root_provider_uuid'] == P(3), below={400})
+Feature('1.37 PUT provider re-parents inside its own tree', (1, 37), HIST + '1.37',
+        lambda s, v: [('POST', RP, {'name': 'c14-sibling', 'uuid': P(98),
+                                    'parent_provider_uuid': P(1)}, None, '1.39'),
+                      ('PUT', RP + '/' + P(4), {'name': s.prov[P(4)]['name'],
+                                                 'parent_provider_uuid': P(98)}, None),
+                      ('GET', RP + '/' + P(4), None, None, '1.14')],
+        lambda s, v, r: r[0][0] == 200 and r[1][0] == 200 and
+        r[2][2]['parent_provider_uuid'] == P(98) and r[2][2]['root_provider_uuid'] == P(1),
+        below={400})
 # -- 1.38 --------------------------------------------------------------------------------------
 status_feature('1.38 PUT allocations requires consumer_type', (1, 38), HIST + '1.38', 'PUT',
                '/allocations/' + KNEW,
@@ -1302,8 +1313,29 @@ class Worker(vpenum.EnumWorker):
             rq = req(vv, c['method'], path, body, query)
             resp, _ = self.call(rq)
             viol = judge_a(c['route'], c['method'], vv, resp.status, resp.headers, resp.json)
+            n = 1
+            intro = INTRODUCED.get((c['route'], c['method']))
+            if body is not None and vv['cls'] not in ('outside', 'malformed') and \
+                    intro is not None and v < intro and not viol:
+                # an operation that does not exist yet at this version is "not found" whatever
+                # the media type of the body that came with the request
+                # (a body with NO content-type is refused with 400 for every route and version by
+                # the dispatcher itself, before routing -- not a matter of the version surface)
+                for label, ct in (('text/plain', 'text/plain'),):
+                    rq2 = req(vv, c['method'], path, None, query, raw=json.dumps(body), ctype=ct)
+                    r2, _ = self.call(rq2)
+                    n += 1
+                    if r2.status != resp.status:
+                        viol.append(('not-yet-introduced-media-type:%s %s:%s' % (
+                            c['method'], c['route'], r2.status),
+                            '%s %s at %s is not introduced yet and answers %s to a JSON body, '
+                            'but %s when the body comes with %s' % (
+                                c['method'], c['route'], vv['id'], resp.status, r2.status,
+                                label)))
+                        rq = rq2
+                        break
             return {'status': resp.status, 'viol': viol, 'reqs': [rq] if viol else None,
-                    'resp': resp.brief() if viol else None, 'n': 1,
+                    'resp': resp.brief() if viol else None, 'n': n,
                     'allow_self': (resp.status == 405 and c['method'] in [
                         x.strip() for x in lower(resp.headers).get('allow', '').split(',')])}
         f = FEATURE_BY_ID[c['feature']]
@@ -1314,7 +1346,8 @@ class Worker(vpenum.EnumWorker):
             resp, _ = self.call(rq)
             resps.append((resp.status, resp.headers, resp.json,
                           vv['id'] if len(t) == 4 else t[4]))
-        present, viol = judge_b(f, vv, resps, s, [template(t[0], t[1]) for t in probe])
+        main = next((i for i, t in enumerate(probe) if len(t) == 4), 0)
+        present, viol = judge_b(f, vv, resps, s, [template(t[0], t[1]) for t in probe], main)
         note = f.note(s, vv['applied'], resps) if f.note and present else None
         return {'status': resps[0][0], 'present': present, 'viol': viol, 'n': len(rqs),
                 'note': note,
@@ -1518,9 +1551,10 @@ def replay(ctx, data):
             rvv = vv if len(t) == 4 else VV_BY_ID[t[4]]
             resp = http.call(h.app, req(rvv, *t[:4]))
             resps.append((resp.status, resp.headers, resp.json, rvv['id']))
-        _, viol = judge_b(f, vv, resps, s,
-                          [template(t[0], t[1]) for t in f.probe(s, vv['applied'])])
-        last = resps[0][0]
+        pr = f.probe(s, vv['applied'])
+        main = next((i for i, t in enumerate(pr) if len(t) == 4), 0)
+        _, viol = judge_b(f, vv, resps, s, [template(t[0], t[1]) for t in pr], main)
+        last = resps[main][0]
     hit = [m for g, m in viol if g == sig]
     if hit:
         return False, 'reproduced: %s (case %s, last status %s)' % (hit[0], c, last)
